@@ -368,7 +368,7 @@ def run(chk):
             continue
         vs = []
         for opi in range(1, len(sc['ops'])):
-            oracles.check_op(sc, o, opi, lambda p_, c_, d_: vs.append((p_, c_, d_)))
+            (oracles.check_apply_op if sc['ops'][opi]['op'] == 'apply_batch' else oracles.check_op)(sc, o, opi, lambda p_, c_, d_: vs.append((p_, c_, d_)))
         for p_, c_, d_ in vs:
             if p_ in ('C09', 'C01', 'C02'):
                 chk.violation('later_calls_behave_as_on_a_fresh_pool', {'scenario': sc}, {'clause': c_, 'detail': d_}, 'after a failed call later calls start fresh workers and succeed',
